@@ -163,7 +163,7 @@ def pygamma_cmd():
         cat_dissim = None
         if args.cat_dissim == "levenshtein":
             cat_dissim = LevenshteinCategoricalDissimilarity(continuum.categories)
-        elif args.cat_dissim == "ordinal":
+        elif args.cat_dissim == "numerical":
             cat_dissim = NumericalCategoricalDissimilarity(continuum.categories)
 
         dissim = CombinedCategoricalDissimilarity(alpha=args.alpha,
